@@ -95,7 +95,8 @@ std::vector<uint8_t> seed_file(Loader l, unsigned which, std::vector<size_t>* fi
 		return refgfx::encode_bmp(b, fields);
 	}
 	if (l == LTileset) {
-		if (which & 1) { refgfx::LBmp b; b.depth = 8; b.width = 32; b.height = 32; for (size_t i = 0; i < 256; ++i) b.palette.push_back({uint8_t(i), 0, 0, 0}); b.pixels.assign(32 * 32, 1); return refgfx::encode_bmp(b, fields); }
+		if (which & 1) { refgfx::LBmp b; b.depth = 8; b.width = 32; b.height = which == 3 ? -32 : 32; size_t entries = which == 3 ? 7 : 256; b.usedColors = which == 3 ? 7 : 0;   // seed 3: partial colour table, top-down
+			for (size_t i = 0; i < entries; ++i) b.palette.push_back({uint8_t(i), 0, 0, 0}); b.pixels.assign(32 * 32, 1); return refgfx::encode_bmp(b, fields); }
 		std::vector<std::array<uint8_t, 4>> pal(256); for (size_t i = 0; i < 256; ++i) pal[i] = {uint8_t(i), 1, 2, 3};
 		if (fields) *fields = refgfx::tileset_fields();
 		return refgfx::encode_tileset(32 * (which % 3), pal, std::vector<uint8_t>(size_t(32 * (which % 3)) * 32, 7));
@@ -197,6 +198,14 @@ void run_sweep(Stats& st) {
 	// custom tileset pixel heights around the sign boundary
 	{ std::vector<std::array<uint8_t, 4>> pal(256);
 	  for (uint32_t ph : {0x7FFFFFE0u, 0x80000000u, 0x80000020u, 0xFFFFFFE0u, 0xFFFFFFC0u, 0x08000000u, 0x08000020u}) { if (!sw("tileset_height", ph)) continue; std::vector<uint8_t> v = refgfx::encode_tileset(0, pal, {}); for (int j = 0; j < 4; ++j) { v[24 + j] = uint8_t(ph >> (8 * j)); uint32_t dl = 32 * ph; v[1092 + j] = uint8_t(dl >> (8 * j)); } auto tail = std::vector<uint8_t>(size_t((32 * ph) <= 4096 ? 32 * ph : 64), 3); v.insert(v.end(), tail.begin(), tail.end()); load_case(LTileset, v, st, 0xFF, "tileset_height"); } }
+	// PRT images whose fields satisfy one rule only because another field is degenerate: width 0..4 x scan line x palette index at/after the
+	// palette count x 0..1 palettes - refused, or (if accepted) every follow-up incl. sprite extraction by every index is safe
+	for (unsigned np = 0; np < 2; ++np) for (uint32_t width : {0u, 1u, 4u}) for (uint32_t pidx : {0u, 1u, 2u, 0xFFFFu}) for (uint32_t scan : {0u, 4u}) {
+		if (!sw("prt_degenerate_image", np, width, pidx, scan)) continue;
+		refgfx::LPrt p; for (unsigned i = 0; i < np; ++i) { std::array<std::array<uint8_t, 4>, 256> pal{}; p.palettes.push_back(pal); p.palHeaders.push_back({}); }
+		p.images.push_back({scan, 0, 3, width, 0, uint16_t(pidx)}); p.images.push_back({4, 0, 1, 4, 0, uint16_t(np ? 0 : pidx)});
+		load_case(LPrt, refgfx::encode_prt(p), st, 0xFF, "prt_degenerate");
+	}
 	// PRT counts near 2^32 and every image index on small files
 	for (unsigned which = 0; which < 4; ++which) { std::vector<size_t> f; auto full = seed_file(LPrt, which, &f); for (size_t fi = 0; fi < f.size() && fi < 40; ++fi) for (uint32_t nv : {0xFFFFFFFFu, 0xFFFFFFFEu, 0x80000000u, 0x10000000u, 0x0CCCCCCDu, 0x15555556u}) { if (!sw("prt_count", which, fi, nv)) continue; std::vector<uint8_t> b = full; size_t at = f[fi]; if (at + 4 > b.size()) continue; for (int j = 0; j < 4; ++j) b[at + j] = uint8_t(nv >> (8 * j)); load_case(LPrt, b, st, 0, "prt_count"); } }
 	st.exhaustive = true;
